@@ -67,6 +67,36 @@ CLAIMS = {
          "C13_uniform_progress_partial (the Uniform rejection loop accepts the draw 0). Promptness is explored in child processes under scripted RNG prefixes; two genuine "
          "sampler defects found there (Binomial hang F11, Binomial panic F12) are recorded known findings.", "DESIGN.md section 4, C13"),
 
+ "C07": ("Theorems C07_limit_gate/_zero_no_action (a limited action passes the limit check only with remaining limit > 0), C07_stay/_no_refresh (over any call "
+         "in which machine i does not change state, its limit is exactly the old limit minus the decrements logged for i, floored at 0 -- self-transitions never "
+         "refresh, other machines never consume), C07_countdown (decrement, withdrawal of the pending action and immediate LimitReached), C07_refresh, C07_others. "
+         "State changes and decrements are read off the ghost log, which the hook log comparison ties to the code.", "DESIGN.md section 4, C07"),
+ "C08": ("Theorems C08_update (functional specification of update_counter: saturating increment/decrement/set with 1, a sampled value or the other counter's "
+         "pre-transition value; CounterZero raised exactly on non-zero -> zero with that machine's zeroed-once flag unset, before the entered state's action; "
+         "precedence of the action scheduled by the CounterZero transition), C08_saturating, C08_once (CounterZero events for machine i plus its unset flags <= 2 "
+         "in every call: at most one per counter per machine per call).", "DESIGN.md section 4, C08"),
+ "C09": ("Theorems C09_call / C09_at_most_one / C09_signallers / C09_targets over the ghost log: with nobody signalling nothing is delivered; a lone "
+         "signaller (however often it signals) is excluded and every other machine index receives exactly one Signal, the signaller receiving one only if "
+         "a machine answered during the round; two or more distinct signallers reach every index exactly once; the delivery list never contains a duplicate "
+         "and no pending signal survives the call. The log is tied to the code by the hook log comparison.", "DESIGN.md section 4, C09"),
+
+ "C10": ("Theorem C10_solo: for EVERY configuration, every position i whose machine samples deterministically (probability-1 vectors, constant distributions) and every neighbour set "
+         "without signal transitions (neighbours otherwise arbitrary and probabilistic), every history, start time and every PAIR of random tapes: the actions returned for machine i in the "
+         "combined run equal, call by call, the actions of the machine running alone on the projected history (events addressed to neighbours mapped to an unknown id), up to its id; "
+         "C10_solo_total: both runs exist for valid configurations. Two-run simulation over transition (induction on fuel), built on the frame lemmas C10_step_frame / C10_decrement_frame "
+         "and the accounting projection. The differential runs deterministic machines next to arbitrary neighbours and alone, on the implementation and on the model.", "DESIGN.md section 0 and 4, C10"),
+
+ "C12": ("Theorems C12_sound (validate_machine m = true -> WF_machine m, WF stated over real numbers from the documentation: fractions real in [0,1], "
+         "probabilities real in (0,1], f32 sums in (0,1], targets in range without duplicates, distribution parameters in their documented domains), "
+         "C12_nan_rejected, C12_framework_new (same judgement; a framework from accepted machines and fractions in [0,1] never fails). The model's validators are "
+         "compared with Machine::validate, Framework::new, Machine::from_str and Machine::new on adversarial machines.", "DESIGN.md section 4, C12"),
+
+ "C13": ("PARTIAL (the ten rand_distr samplers are third-party code: their result is universally quantified, their termination is not proved). Theorems C13_range "
+         "(for every raw sampler value incl. NaN/inf and every start/max, Dist::sample is non-NaN, non-negative and <= max when max > 0 -- Flocq), C13_consumers "
+         "(timeouts/durations <= 24 h, limits and counter values within u64), C13_unwrap (constructors cannot fail on validated distributions), C13_uniform_pre, "
+         "C13_uniform_progress_partial (the Uniform rejection loop accepts the draw 0). Promptness is explored in child processes under scripted RNG prefixes; two genuine "
+         "sampler defects found there (Binomial hang F11, Binomial panic F12) are recorded known findings.", "DESIGN.md section 4, C13"),
+
  "C06": ("Theorems C06_thresholds (for every one of the 2^23 draw values k and every validated vector, sample_state chooses target j exactly when "
          "thr S_(j-1) <= k < thr S_j, with S_j the f32 partial sums and thr S = ceil(S * 2^23) computed exactly; no transition beyond the last threshold), "
          "C06_threshold_exact (k/2^23 < S <-> k < thr S, Flocq binary32), C06_draw_exact, C06_one (probability 1 is always taken), C06_none. The tie enumerates the "
@@ -99,7 +129,9 @@ CLAIMS = {
          "BlockingEnd of that side, every TunnelSent of that side carries the bypass flag: nothing else leaves a blocked side), C16_no_leak (EVERY TunnelSent of EVERY returned trace was released in a "
          "reachable state in which its side was not blocking, or blocking bypassably with the packet carrying the bypass flag), C16_block_rule (start / replace / longest-of; the bypass flag is set by a "
          "start or replace and and-ed by an extension), C16_blocking_end (every BlockingEnd is the expiry of that side's blocking, at the expiry, clearing it), C16_bypass_origin, C16_zero_duration_refuted "
-         "(known finding F8). PARTIAL in one respect: the 'every contributing action allowed bypass' clause is proved about the simulator's own flag (no_leak + rule), not restated over the trace alone; "
+         "(known finding F8), C16_fail_closed (whole runs: if no BlockOutgoing action returned so far for a side allows bypass, nothing at all is tunnel-sent by that side between a positive-duration BlockingBegin and the "
+         "next BlockingEnd), C16_bypass_needs_block (a TunnelSent leaving a blocking side carries the bypass flag and some earlier block action of that side allowed bypass). PARTIAL in one respect: the exact "
+         "'every action that started or updated the current blocking allowed bypass' clause is proved about the simulator's own flag (no_leak + rule), not restated over the trace alone; "
          "the replaying monitor checks it on generated runs. Fixes F10 and F14 were found by this check.", "DESIGN.md section 0 and 4, C16"),
 
  "C17": ("Theorem C17_trace (whole runs on parsed traces recording all events): the returned trace is the event column of a history H (each processed event with the actions its side's framework "
